@@ -17,7 +17,10 @@ VClassF(v, F) == IF v = None THEN "None"
                  ELSE IF \E i \in DOMAIN v : v[i] = "zz" THEN "with-unknown"
                  ELSE IF BlockUnordered(v, F) THEN "block-out-of-order" ELSE "names"
 VClass(v) == VClassF(v, IF v = v1 THEN F1 ELSE F2)
+\* a name both inputs have, NOT selected from the first: the second input's field of that name belongs in the output
+SharedLeftOut == v1 # None /\ \E n \in Rng(F1) \cap Rng(F2) : n \notin Rng(v1) /\ (v2 = None \/ n \in Rng(v2))
 Sig == <<rel, IF pc = "done" /\ outcome = "ok" THEN mode ELSE "refused", Len(in1.lev),
+         IF SharedLeftOut THEN "shared-name-left-to-second" ELSE "-",
          IF NonMonoP(in1) THEN "first-nonmono" ELSE "first-mono",
          IF NonMonoP(in2) THEN "second-nonmono" ELSE "second-mono",
          VClassF(v1, F1), VClassF(v2, F2),
